@@ -4,6 +4,7 @@ correspondence K-C16 (table dumps, decomposition-class op sequences, trainer-lev
 configuration sweeps)."""
 import os, re
 from vlib import core
+from checks import c16_mclin
 
 TRUST = ("Lean 4.33 kernel; axioms at most propext/Classical.choice/Quot.sound (audited per run by #audit_module); ")
 MANIFEST = dict(
@@ -58,7 +59,7 @@ def hname(base):
 
 
 def build(ctx):
-    return ctx.harness(hname("c16"), ["c16.cpp", "c16s.cpp", "c16x.cpp"], repo_sources=SRC)
+    return ctx.harness(hname("c16"), ["c16l.cpp", "c16.cpp", "c16s.cpp", "c16x.cpp"], repo_sources=SRC)
 
 
 def classify(ops, res):
@@ -241,9 +242,14 @@ def run_box(ctx, hcmd, dcmd, ops, timeout=300):
 
 def classify_box(ops, res):
     kinds = sorted({o.split()[0] for o in ops[1:]})
-    fam = ops[0].split()[1] if ops and ops[0].startswith("box") else "?"
+    fam = ops[0].split()[1] if ops and ops[0].split()[0] in ("box", "sbox") else "?"
+    if ops and ops[0].startswith("mldata"):
+        fam = next((o.split()[1] for o in ops if o.startswith("mlnew")), "?")
     if res.oracle:
         tags = sorted({m for l in res.oracle for m in re.findall(r"!oracle (\S+)", l)})
+        if tags == ["ml-gain-mismatch"] and fam in ("CS", "ADM", "ATM") and res.diff_at is None and not res.crash:
+            return (f"F-C16-L1:mclinear-two-variable-gain:{fam}",
+                    f"QpMcLinear{fam}::solveSub returns a gain that is not the change of the dual objective (two-variable step); ops {ops}")
         if tags == ["label-after-shrink"]:
             return "F-C16-1:label-after-shrink", ("QpMcBoxDecomp::label(i) returns the label of the example currently at position i, "
                                                    f"not of dataset example i, after deactivateExample; ops {ops}")
@@ -281,9 +287,11 @@ def correspond_box(ctx, name, cases, hcmd, dcmd, max_report=4):
         results = list(ex.map(lambda c: run_box(ctx, hcmd, dcmd, c, timeout=120), cases))
     failing = [(c, r) for c, r in zip(cases, results) if not r.ok] or [(all_ops, big)]
     ctx.log(f"{name}: {len(failing)} of {len(cases)} cases FAIL")
-    seen = set()
+    seen, seen0 = set(), set()
     for c, r in failing:
         key0, _ = classify_box(c, r)
+        if key0 in seen0: continue           # one minimised representative per kind of failure
+        seen0.add(key0)
         def fails(ops):
             rr = run_box(ctx, hcmd, dcmd, ops, timeout=60)
             return (not rr.ok) and classify_box(ops, rr)[0] == key0
@@ -660,6 +668,19 @@ def run(ctx):
     ctx.cov["distinct_nontrivial"] += len({"\n".join(c) for c in xcases if len(c) > 3})
     ctx.sample({"simplex_ops": xcases[len(xcases) // 2][:6]})
     correspond_box(ctx, "K-C16-simplex", xcases, [exe], [drv])
+    # dedicated multi-class linear solvers QpMcLinear{WW,LLW,ATS,MMR,Reinforced,CS,ATM,ADM}: the per-example step
+    # (calcGradient / solveSub / updateWeightVectors of the real classes) along arbitrary schedules
+    rl = ctx.rng.fork("c16-mclin")
+    BOXF, SXF = ["WW", "LLW", "ATS", "MMR", "RS"], ["CS", "ATM", "ADM"]
+    mcases = [c16_mclin.gen_mclin_case(rl, 6 if ctx.quick else 12, ctx, BOXF) for _ in range(450 if ctx.quick else 2500)]
+    # (separate batch: the gain oracle is known to fire there, F-C16-L1; every other failure still gets its own key)
+    scases = [c for c in corpus if c[0].startswith("mldata")]
+    scases += [c16_mclin.gen_mclin_case(rl, 6 if ctx.quick else 12, ctx, SXF) for _ in range(150 if ctx.quick else 1200)]
+    ctx.cov["evaluations"] += len(mcases) + len(scases)
+    ctx.cov["distinct_nontrivial"] += len({"\n".join(c) for c in mcases + scases})
+    ctx.sample({"mclinear_ops": mcases[len(mcases) // 2][:4]})
+    correspond_box(ctx, "K-C16-mclinear", mcases, [exe], [drv], max_report=8)
+    correspond_box(ctx, "K-C16-mclinear-sum", scases, [exe], [drv], max_report=8)
     # dedicated linear solver, one-epoch sweeps along the observed schedule
     lcases = [gen_linear_case(r, 6 if ctx.quick else 25, ctx) for _ in range(300 if ctx.quick else 1500)]
     lcases = add_schedules(exe, lcases)
